@@ -63,11 +63,39 @@ func splitCond(c Cond) []Cond {
 
 func pathCond(file *ast.File, body *ast.BlockStmt, pos token.Pos) (conds []Cond, complex bool) {
 	path, _ := astutil.PathEnclosingInterval(file, pos, pos)
+	return pathCondFrom(path, nil, body)
+}
+
+// condKey: a textual key of a conjunct (expression text and polarity).
+func condKey(c Cond) string {
+	e := c.Expr
+	for {
+		p, ok := e.(*ast.ParenExpr)
+		if !ok {
+			break
+		}
+		e = p.X
+	}
+	neg := c.Neg
+	if u, ok := e.(*ast.UnaryExpr); ok && u.Op == token.NOT {
+		e, neg = u.X, !neg
+	}
+	k := types.ExprString(e)
+	if neg {
+		return "!" + k
+	}
+	return k
+}
+
+// pathCondFrom walks the enclosing nodes path (innermost first); first is the node below path[0].
+func pathCondFrom(path []ast.Node, first ast.Node, body *ast.BlockStmt) (conds []Cond, complex bool) {
 	// path[0] is innermost.
 	for i, n := range path {
 		var child ast.Node
 		if i > 0 {
 			child = path[i-1]
+		} else {
+			child = first
 		}
 		switch s := n.(type) {
 		case *ast.BlockStmt:
@@ -88,6 +116,29 @@ func pathCond(file *ast.File, body *ast.BlockStmt, pos token.Pos) (conds []Cond,
 		case *ast.ForStmt:
 			if child == ast.Node(s.Body) && s.Cond != nil {
 				conds = append(conds, Cond{Expr: s.Cond})
+			}
+			// do-while: `if !C { return }; for { S; if !C { break } }`. What was established before the loop holds in
+			// the first iteration only; in the later ones holds what the latch (the break test that ends the body)
+			// lets through. Of the conditions gathered outside the loop only those the latch re-establishes are kept.
+			if child == ast.Node(s.Body) && s.Cond == nil && s.Body != nil && len(s.Body.List) > 0 {
+				if latch, ok := s.Body.List[len(s.Body.List)-1].(*ast.IfStmt); ok && latch.Else == nil && latch.Init == nil && terminates(latch.Body) {
+					keep := map[string]bool{}
+					for _, lc := range splitCond(Cond{Expr: latch.Cond, Neg: true}) {
+						keep[condKey(lc)] = true
+					}
+					inner := len(conds)
+					outer, cx := pathCondFrom(path[i+1:], n, body)
+					complex = complex || cx
+					conds = conds[:inner]
+					for _, oc := range outer {
+						for _, part := range splitCond(oc) {
+							if keep[condKey(part)] {
+								conds = append(conds, part)
+							}
+						}
+					}
+					return conds, complex
+				}
 			}
 		case *ast.CommClause:
 			if child != nil && child != ast.Node(s.Comm) {
